@@ -482,6 +482,18 @@ func c10R5(c *kit.Ctx, m *c10Model) {
 				}
 			}
 		}
+		// b := <condition>: both outcomes, each with what it implies
+		if as, ok := n.(*ast.AssignStmt); ok && len(as.Lhs) == 1 && len(as.Rhs) == 1 {
+			if bt, ok := info.TypeOf(as.Lhs[0]).Underlying().(*types.Basic); ok && bt.Info()&types.IsBoolean != 0 {
+				if _, plain := ast.Unparen(as.Lhs[0]).(*ast.Ident); plain {
+					var out []kit.S
+					for _, r := range eval(as.Rhs[0], s) {
+						out = append(out, bind(r.s, as.Lhs[0], map[bool]string{true: "true", false: "false"}[r.v]))
+					}
+					return out
+				}
+			}
+		}
 		switch x := n.(type) {
 		case *ast.AssignStmt:
 			switch {
@@ -612,8 +624,11 @@ func c10R6(c *kit.Ctx, m *c10Model) {
 	}
 	var arm *ast.IfStmt
 	ast.Inspect(f.Body, func(n ast.Node) bool {
-		if ifs, ok := n.(*ast.IfStmt); ok && c10Within(condExpr, ifs.Cond) && arm == nil {
-			arm = ifs
+		if ifs, ok := n.(*ast.IfStmt); ok && arm == nil {
+			// the condition itself, or a boolean local that holds it
+			if c10Within(condExpr, ifs.Cond) || c10Within(condExpr, c10ResolveLocal(f, ifs.Cond)) {
+				arm = ifs
+			}
 		}
 		return true
 	})
